@@ -140,6 +140,16 @@ def diff(a: Any, b: Any, path: Path = (), ctx: Tuple[str, str] = ("<root>", ""),
     return out
 
 
+def _signature(x: Any) -> Any:
+    """What identifies an element of a list (to tell a reordered list from changed elements): class + short name / referenced ID."""
+    if is_dc(x):
+        for attr in ("short_name", "ref_id"):
+            v = getattr(x, attr, None)
+            if isinstance(v, str):
+                return (cname(x), v)
+    return None
+
+
 def _leafmode(a: Any, b: Any) -> str:
     return "dropped" if (_is_empty(b) and not _is_empty(a)) else "altered"
 
@@ -162,6 +172,10 @@ def _diff(a: Any, b: Any, path: Path, ctx: Tuple[str, str], out: List[Diff], ign
         if len(a) != len(b):
             out.append(Diff(ctx[0], ctx[1], "dropped" if len(b) < len(a) else "altered", path,
                             f"{len(a)} item(s) " + _short(a), f"{len(b)} item(s) " + _short(b)))
+            return
+        sa, sb = [_signature(x) for x in a], [_signature(x) for x in b]
+        if sa != sb and None not in sa and sorted(map(repr, sa)) == sorted(map(repr, sb)):
+            out.append(Diff(ctx[0], ctx[1], "altered", path, "order " + _short(sa), "order " + _short(sb)))  # same elements, other order
             return
         for i, (x, y) in enumerate(zip(a, b)):
             _diff(x, y, path + (i,), ctx, out, ignore)
